@@ -103,6 +103,10 @@ def run(c):
             maps.append(({"long": "v" * L}, {"size:value-2^%d" % k}))
             maps.append(({"k" * L: "v"}, {"size:key-2^%d" % k}))
             maps.append(({"a": "x", "long": ("ab c&d=" * L)[:L], "z": "y"}, {"size:reserved-value-2^%d" % k}))
+    # field names that differ only in letter case, in their normalisation or by surrounding reserved characters are different fields
+    for m in ({"Name": "Alice", "name": "bob"}, {"id": "1", "ID": "2", "Id": "3", "iD": "4"}, {"a": "x", "A": "x"}, {"k": "v", "K": "V", "\u212a": "kelvin"}, {"caf\u00e9": "nfc", "cafe\u0301": "nfd"},
+              {"a b": "1", "a+b": "2", "a%20b": "3"}, {"x": "1", "x ": "2", " x": "3"}, {"q": "a", "q[]": "b", "q[0]": "c"}, {"\u00df": "sharp", "ss": "double", "SS": "upper"}, {"i": "latin", "\u0130": "dotted", "\u0131": "dotless"}):
+        maps.append((m, {"names:near-duplicates"}))
     for cnt in (31, 32, 33, 63, 64, 65, 127, 128, 129, 255, 256, 257, 500) + (() if c.quick else (1000, 1024, 1025, 4000)):
         maps.append(({"f%d" % j: "v%d" % j for j in range(cnt)}, {"size:fields-%d" % cnt}))
     for i in range(n):
@@ -161,7 +165,7 @@ def echo(c, rng, maps):
     try:
         # the encoder's own output for each map (query.roundtrip returns it)
         pick = [maps[i] for i in sorted(rng.sample(range(len(maps)), min(len(maps), 700 if c.quick else 8000)))]
-        pick += [x for x in maps if any(f.startswith("size:") for f in x[1]) and x not in pick]
+        pick += [x for x in maps if any(f.startswith("size:") or f.startswith("names:") for f in x[1]) and x not in pick]
         cases = [core.Case("e%d" % i, "query.roundtrip", map_fields(m)) for i, (m, f) in enumerate(pick)]
         obs = core.run_cases(cases)
         srv = server.Server(t.root, threads=4)
